@@ -18,11 +18,15 @@ Definition agg_entry (s : st) (k : key) (e : entry) : Prop :=
 Definition book_ok (s : st) : Prop := valid s = true /\ pess s = true /\ committer s = true.
 
 (* the client still knows the lock and will release it with a sufficient for-update ts *)
+(* key held in the current / previous aggressive-locking attempt; every release of such a key uses
+   max(committer.forUpdateTS, maxLockedWithConflictTS) *)
+Definition agg_cov (s : st) (k : key) (f' : ts) : Prop :=
+  exists a e, agg s = Some a /\ (findk k (cur a) = Some e \/ findk k (prev a) = Some e) /\
+              f' <= N.max (fu s) (amaxc a).
 Definition cov_book (s : st) (p : slock) : Prop :=
   book_ok s /\
   match snd p with
-  | Pess f' => (In (fst p) (flags s) /\ f' <= N.max (fu s) (cmaxc s))
-               \/ (exists e, agg_entry s (fst p) e /\ f' <= N.max (fu s) (e_lwc e))
+  | Pess f' => (In (fst p) (flags s) /\ f' <= N.max (fu s) (cmaxc s)) \/ agg_cov s (fst p) f'
   | Prew => False
   end.
 (* a pending background task will release it *)
@@ -42,21 +46,13 @@ Definition Inv (s : st) : Prop :=
 Definition hard_fail (o : lock_out) : bool :=
   match lo_res o with Some e => negb (may_be_locked e) | None => false end.
 
-(* a re-lock of a key held from the previous aggressive-locking attempt neither fails with
-   key-exists / write-conflict nor is skipped as "absent" under lock-only-if-exists
-   (without this the code loses the key: known findings F19 / F19b) *)
-Definition relock_safe (s : st) (ks : list key) (loie : bool) (o : lock_out) : Prop :=
-  forall k, In k ks -> in_prev (exit_agg ks s) k = true ->
-            hard_fail o = false /\ (loie = true -> ~ In k (lo_absent o)).
-
 Definition wf_api (s : st) (e : ev) : Prop :=
   match e with
   | ELock ks rv ce loie f o => valid s = true /\ fu s <= f
   | ECommit _ | ERollback => pending s = false
   | _ => True
   end.
-Definition wf_ev (s : st) (e : ev) : Prop :=
-  wf_api s e /\ match e with ELock ks rv ce loie f o => relock_safe s ks loie o | _ => True end.
+Definition wf_ev (s : st) (e : ev) : Prop := wf_api s e.
 
 Fixpoint wf_run (s : st) (evs : list ev) : Prop :=
   match evs with [] => True | e :: r => wf_ev s e /\ wf_run (step s e) r end.
@@ -92,7 +88,7 @@ Lemma Inv_frame s s' :
   (forall t, In t (tasks s) -> In t (tasks s')) ->
   valid s' = valid s -> pess s' = pess s -> cmaxc s' = cmaxc s ->
   fu s <= fu s' -> (committer s = true -> committer s' = true) ->
-  (forall k e, agg_entry s k e -> agg_entry s' k e) ->
+  (forall k f', agg_cov s k f' -> agg_cov s' k f') ->
   (lwc_ok s -> lwc_ok s') -> (agg_len s' <= agg_len s)%Z ->
   Inv s -> Inv s'.
 Proof.
@@ -100,15 +96,13 @@ Proof.
   split; [|split]; auto.
   - intros p Hin. rewrite Hst in Hin. destruct (HI p Hin) as [[(B1 & B2 & B3) Hc]|Ht].
     + left. split; [unfold book_ok; rewrite Hv, Hp; auto|].
-      destruct (snd p) as [f'|]; auto. destruct Hc as [[H1 H2]|(e & H1 & H2)].
+      destruct (snd p) as [f'|]; auto. destruct Hc as [[H1 H2]|H1].
       * left. rewrite Hfl, Hcm. split; auto. lia.
-      * right. exists e. split; auto. lia.
+      * right. auto.
     + right. eapply cov_task_incl; eauto.
   - unfold cnt_ok in *. rewrite Hfl, Hcnt. lia.
 Qed.
 
-Lemma agg_entry_same s s' : agg s' = agg s -> forall k e, agg_entry s k e -> agg_entry s' k e.
-Proof. intros H k e (a & Ha & Hf). exists a. rewrite H. auto. Qed.
 
 (* ---- set / insert / aggressive start ---- *)
 Lemma Inv_written s x : Inv s -> Inv (set_written x s).
@@ -124,7 +118,7 @@ Lemma Inv_agg_start s : Inv s -> Inv (agg_start s).
 Proof.
   unfold agg_start. destruct (agg s) eqn:Ea; auto.
   apply Inv_frame; simpl; auto; try lia.
-  - intros k e (a & Ha & _). congruence.
+  - intros k f' (a & e & Ha & _). congruence.
   - intros _ a k e Ha Hin. inversion Ha; subst. simpl in Hin. tauto.
   - unfold agg_len. rewrite Ea. simpl. unfold len; simpl; lia.
 Qed.
@@ -136,14 +130,13 @@ Lemma cleanup_props a s :
   committer s' = committer s /\ fu s' = fu s /\ cmaxc s' = cmaxc s /\
   cnt s' = (cnt s - len (prev a))%Z /\
   (forall t, In t (tasks s) -> In t (tasks s')) /\
-  (forall k e f', findk k (prev a) = Some e -> e_lwc e <= amaxc a -> f' <= N.max (fu s) (e_lwc e) ->
-                  cov_task s' (k, Pess f')).
+  (forall k e f', findk k (prev a) = Some e -> f' <= N.max (fu s) (amaxc a) -> cov_task s' (k, Pess f')).
 Proof.
   unfold cleanup_redundant. destruct (prev a) as [|x r] eqn:E; simpl.
   - repeat split; auto. unfold len; simpl; lia. intros; discriminate.
   - repeat split; auto.
     + intros t Ht. apply in_or_app; auto.
-    + intros k e f' Hf Hl Hle.
+    + intros k e f' Hf Hle.
       exists (TPessRb (keys_of (x :: r)) (N.max (fu s) (amaxc a))). split.
       * apply in_or_app; right; simpl; auto.
       * apply releases_pessrb; [|lia]. eapply findk_keys; eauto.
@@ -153,12 +146,6 @@ Ltac cleanup_facts a s :=
   let H := fresh "CP" in
   pose proof (cleanup_props a s) as H; cbv zeta in H;
   destruct H as (CPst & CPfl & CPag & CPva & CPpe & CPco & CPfu & CPcm & CPcn & CPtk & CPpv).
-
-Lemma lwc_entry s a k e :
-  lwc_ok s -> agg s = Some a -> (findk k (cur a) = Some e \/ findk k (prev a) = Some e) -> e_lwc e <= amaxc a.
-Proof.
-  intros HL Ha [H|H]; apply findk_In in H; apply (HL a k e Ha); apply in_or_app; auto.
-Qed.
 
 Lemma len_app {A} (l r : list A) : len (l ++ r) = (len l + len r)%Z.
 Proof. unfold len. rewrite app_length. lia. Qed.
@@ -181,15 +168,14 @@ Proof.
   - intros p Hin. simpl in Hin. rewrite Est, CPst in Hin.
     destruct (HI p Hin) as [[(B1 & B2 & B3) Hc]|Ht].
     + destruct p as [k [f'|]]; simpl in Hc; [|tauto].
-      destruct Hc as [[H1 H2]|(e & (a0 & Ha0 & Hf) & H2)].
+      destruct Hc as [[H1 H2]|(a0 & e & Ha0 & Hf & H2)].
       * left. split; [unfold book_ok; simpl; rewrite Eva, Epe, Eco, CPva, CPpe, CPco; auto|].
         simpl. left. rewrite Efl, CPfl, Efu, CPfu, Ecm, CPcm. auto.
       * rewrite Ea in Ha0. inversion Ha0; subst a0. destruct Hf as [Hf|Hf].
         -- left. split; [unfold book_ok; simpl; rewrite Eva, Epe, Eco, CPva, CPpe, CPco; auto|].
-           simpl. right. exists e. split; [|rewrite Efu, CPfu; auto].
-           eexists. split; [reflexivity|]. simpl. auto.
-        -- right. assert (Hc : cov_task s1 (k, Pess f')).
-           { apply (CPpv k e f'); auto. eapply lwc_entry; eauto. }
+           simpl. right. eexists. exists e. split; [reflexivity|]. simpl. split; auto.
+           rewrite Efu, CPfu. auto.
+        -- right. assert (Hc : cov_task s1 (k, Pess f')) by (apply (CPpv k e f'); auto).
            eapply cov_task_incl; [|exact Hc]. intros t Ht. simpl. rewrite Etk. auto.
     + right. eapply cov_task_incl; [|exact Ht]. intros t Ht'. simpl. rewrite Etk. auto.
   - intros a' k e Ha' Hin. simpl in Ha'. inversion Ha'; subst a'. simpl in Hin. simpl.
@@ -216,13 +202,12 @@ Proof.
   assert (E3 : store s3 = store s2 /\ flags s3 = flags s2 /\ valid s3 = valid s2 /\ pess s3 = pess s2 /\
                committer s3 = committer s2 /\ fu s3 = fu s2 /\ cmaxc s3 = cmaxc s2 /\
                cnt s3 = (cnt s2 - len (cur a))%Z /\ (forall t, In t (tasks s2) -> In t (tasks s3)) /\
-               (forall k e f', findk k (cur a) = Some e -> e_lwc e <= amaxc a -> f' <= N.max (fu s2) (e_lwc e) ->
-                               cov_task s3 (k, Pess f'))).
+               (forall k e f', findk k (cur a) = Some e -> f' <= N.max (fu s2) (amaxc a) -> cov_task s3 (k, Pess f'))).
   { unfold s3. destruct (cur a) as [|x r] eqn:Ec.
     - repeat split; auto. unfold len; simpl; lia. intros; discriminate.
     - repeat split; auto.
       + intros t Ht. simpl. apply in_or_app; auto.
-      + intros k e f' Hf Hl Hle. exists (TPessRb (keys_of (x :: r)) (N.max (fu s2) (amaxc a))).
+      + intros k e f' Hf Hle. exists (TPessRb (keys_of (x :: r)) (N.max (fu s2) (amaxc a))).
         split; [simpl; apply in_or_app; right; simpl; auto|].
         apply releases_pessrb; [|lia]. eapply findk_keys; eauto. }
   destruct E3 as (Fst & Ffl & Fva & Fpe & Fco & Ffu & Fcm & Fcn & Ftk & Fcv).
@@ -231,15 +216,14 @@ Proof.
   - intros p Hin. simpl in Hin. rewrite Fst, Est, CPst in Hin.
     destruct (HI p Hin) as [[(B1 & B2 & B3) Hc]|Ht].
     + destruct p as [k [f'|]]; simpl in Hc; [|tauto].
-      destruct Hc as [[H1 H2]|(e & (a0 & Ha0 & Hf) & H2)].
+      destruct Hc as [[H1 H2]|(a0 & e & Ha0 & Hf & H2)].
       * left. split; [unfold book_ok; simpl; rewrite Fva, Fpe, Fco, Eva, Epe, Eco, CPva, CPpe, CPco; auto|].
         simpl. left. rewrite Ffl, Efl, CPfl, Ffu, Efu, CPfu, Fcm, Ecm, CPcm. auto.
       * rewrite Ea in Ha0. inversion Ha0; subst a0. right. destruct Hf as [Hf|Hf].
         -- assert (Hc : cov_task s3 (k, Pess f')).
-           { apply (Fcv k e f'); auto. eapply lwc_entry; eauto. rewrite Efu, CPfu. auto. }
+           { apply (Fcv k e f'); auto. rewrite Efu, CPfu. auto. }
            eapply cov_task_incl; [|exact Hc]. auto.
-        -- assert (Hc : cov_task s1 (k, Pess f')).
-           { apply (CPpv k e f'); auto. eapply lwc_entry; eauto. }
+        -- assert (Hc : cov_task s1 (k, Pess f')) by (apply (CPpv k e f'); auto).
            eapply cov_task_incl; [|exact Hc]. intros t Ht. simpl. apply Ftk. rewrite Etk. auto.
     + right. eapply cov_task_incl; [|exact Ht]. intros t Ht'. simpl. apply Ftk. rewrite Etk. auto.
   - intros a' k e Ha'. simpl in Ha'. discriminate.
@@ -255,16 +239,15 @@ Proof.
   - intros p Hin. simpl in Hin. rewrite CPst in Hin.
     destruct (HI p Hin) as [[(B1 & B2 & B3) Hc]|Ht].
     + destruct p as [k [f'|]]; simpl in Hc; [|tauto].
-      destruct Hc as [[H1 H2]|(e & (a0 & Ha0 & Hf) & H2)].
+      destruct Hc as [[H1 H2]|(a0 & e & Ha0 & Hf & H2)].
       * left. split; [unfold book_ok; simpl; rewrite CPva, CPpe, CPco; auto|].
         simpl. left. rewrite CPfl, CPfu, CPcm. split; [apply in_or_app; auto|lia].
       * rewrite Ea in Ha0. inversion Ha0; subst a0. destruct Hf as [Hf|Hf].
         -- left. split; [unfold book_ok; simpl; rewrite CPva, CPpe, CPco; auto|].
            simpl. left. rewrite CPfl, CPfu, CPcm. split.
            ++ apply in_or_app; right. eapply findk_keys; eauto.
-           ++ assert (e_lwc e <= amaxc a) by (eapply lwc_entry; eauto). lia.
-        -- right. assert (Hc : cov_task s1 (k, Pess f')).
-           { apply (CPpv k e f'); auto. eapply lwc_entry; eauto. }
+           ++ lia.
+        -- right. assert (Hc : cov_task s1 (k, Pess f')) by (apply (CPpv k e f'); auto).
            eapply cov_task_incl; [|exact Hc]. auto.
     + right. eapply cov_task_incl; [|exact Ht]. auto.
   - intros a' k e Ha'. simpl in Ha'. discriminate.
@@ -285,6 +268,24 @@ Proof.
     + rewrite En in H. inversion H; subst. congruence.
 Qed.
 
+Lemma releases_restrict ks t p : releases (restrict_task ks t) p = true -> releases t p = true.
+Proof.
+  destruct t as [l f|l|l]; simpl; destruct (snd p); intros H; auto;
+    repeat match goal with
+    | H : _ && _ = true |- _ => apply andb_true_iff in H; destruct H
+    end;
+    try (apply andb_true_iff; split; auto);
+    match goal with H : memk _ (filter _ _) = true |- _ => apply memk_In in H; apply filter_In in H; apply memk_In; tauto end.
+Qed.
+
+Lemma Inv_run_some n ks s : Inv s -> Inv (run_some n ks s).
+Proof.
+  intros (HI & HL & HC). unfold run_some. destruct (nth_error (tasks s) n) as [t|] eqn:En; [|repeat split; auto].
+  split; [|split]; auto.
+  intros p Hin. simpl in Hin. apply run_task_In in Hin. destruct Hin as [Hin _].
+  destruct (HI p Hin) as [[B Hc]|(t0 & Ht0 & Hr0)]; [left; split; auto|right; exists t0; auto].
+Qed.
+
 (* ---- Rollback ---- *)
 Lemma Inv_rollback s : Inv s -> pending s = false -> Inv (rollback s).
 Proof.
@@ -302,7 +303,7 @@ Proof.
     { destruct (pess s1 && committer s1); [|auto]. destruct (cnt s1 =? 0)%Z; auto. }
     destruct (HI p Hin1) as [[(B1 & B2 & B3) Hc]|Ht].
     + exfalso. destruct p as [k [f'|]]; simpl in Hc; [|tauto].
-      destruct Hc as [[H1 H2]|(e & (a0 & Ha0 & _) & _)]; [|congruence].
+      destruct Hc as [[H1 H2]|(a0 & e & Ha0 & _ & _)]; [|congruence].
       rewrite B2, B3 in Hin. simpl in Hin. destruct (cnt s1 =? 0)%Z eqn:Ec.
       * apply Z.eqb_eq in Ec. unfold cnt_ok, agg_len in HC. rewrite Hag, Ec in HC.
         destruct (flags s1); [inversion H1|]. unfold len in HC. simpl in HC. lia.
